@@ -25,9 +25,15 @@ Proofs/Walk.vos Proofs/Walk.vok Proofs/Walk.required_vos: Proofs/Walk.v Model/Da
 Proofs/DagApi.vo Proofs/DagApi.glob Proofs/DagApi.v.beautified Proofs/DagApi.required_vo: Proofs/DagApi.v Model/Dag.vo Proofs/Kahn.vo Proofs/Walk.vo
 Proofs/DagApi.vio: Proofs/DagApi.v Model/Dag.vio Proofs/Kahn.vio Proofs/Walk.vio
 Proofs/DagApi.vos Proofs/DagApi.vok Proofs/DagApi.required_vos: Proofs/DagApi.v Model/Dag.vos Proofs/Kahn.vos Proofs/Walk.vos
-Harness/Glue.vo Harness/Glue.glob Harness/Glue.v.beautified Harness/Glue.required_vo: Harness/Glue.v Lib/Bytes.vo Lib/Val.vo Model/Index.vo Model/Dag.vo Model/Git.vo Model/Tracking.vo Model/CfgFile.vo Model/Sched.vo Model/Plan.vo Model/Lock.vo Model/Reader.vo
-Harness/Glue.vio: Harness/Glue.v Lib/Bytes.vio Lib/Val.vio Model/Index.vio Model/Dag.vio Model/Git.vio Model/Tracking.vio Model/CfgFile.vio Model/Sched.vio Model/Plan.vio Model/Lock.vio Model/Reader.vio
-Harness/Glue.vos Harness/Glue.vok Harness/Glue.required_vos: Harness/Glue.v Lib/Bytes.vos Lib/Val.vos Model/Index.vos Model/Dag.vos Model/Git.vos Model/Tracking.vos Model/CfgFile.vos Model/Sched.vos Model/Plan.vos Model/Lock.vos Model/Reader.vos
+Model/IndexGroups.vo Model/IndexGroups.glob Model/IndexGroups.v.beautified Model/IndexGroups.required_vo: Model/IndexGroups.v Lib/Bytes.vo Model/Index.vo Model/Dag.vo
+Model/IndexGroups.vio: Model/IndexGroups.v Lib/Bytes.vio Model/Index.vio Model/Dag.vio
+Model/IndexGroups.vos Model/IndexGroups.vok Model/IndexGroups.required_vos: Model/IndexGroups.v Lib/Bytes.vos Model/Index.vos Model/Dag.vos
+Proofs/IndexGroupsProof.vo Proofs/IndexGroupsProof.glob Proofs/IndexGroupsProof.v.beautified Proofs/IndexGroupsProof.required_vo: Proofs/IndexGroupsProof.v Lib/Bytes.vo Model/Index.vo Model/Dag.vo Model/IndexGroups.vo Proofs/IndexProof.vo Proofs/DagApi.vo
+Proofs/IndexGroupsProof.vio: Proofs/IndexGroupsProof.v Lib/Bytes.vio Model/Index.vio Model/Dag.vio Model/IndexGroups.vio Proofs/IndexProof.vio Proofs/DagApi.vio
+Proofs/IndexGroupsProof.vos Proofs/IndexGroupsProof.vok Proofs/IndexGroupsProof.required_vos: Proofs/IndexGroupsProof.v Lib/Bytes.vos Model/Index.vos Model/Dag.vos Model/IndexGroups.vos Proofs/IndexProof.vos Proofs/DagApi.vos
+Harness/Glue.vo Harness/Glue.glob Harness/Glue.v.beautified Harness/Glue.required_vo: Harness/Glue.v Lib/Bytes.vo Lib/Val.vo Model/Index.vo Model/Dag.vo Model/IndexGroups.vo Model/Git.vo Model/Tracking.vo Model/CfgFile.vo Model/Sched.vo Model/Plan.vo Model/Lock.vo Model/Reader.vo
+Harness/Glue.vio: Harness/Glue.v Lib/Bytes.vio Lib/Val.vio Model/Index.vio Model/Dag.vio Model/IndexGroups.vio Model/Git.vio Model/Tracking.vio Model/CfgFile.vio Model/Sched.vio Model/Plan.vio Model/Lock.vio Model/Reader.vio
+Harness/Glue.vos Harness/Glue.vok Harness/Glue.required_vos: Harness/Glue.v Lib/Bytes.vos Lib/Val.vos Model/Index.vos Model/Dag.vos Model/IndexGroups.vos Model/Git.vos Model/Tracking.vos Model/CfgFile.vos Model/Sched.vos Model/Plan.vos Model/Lock.vos Model/Reader.vos
 Harness/Extract.vo Harness/Extract.glob Harness/Extract.v.beautified Harness/Extract.required_vo: Harness/Extract.v Harness/Glue.vo
 Harness/Extract.vio: Harness/Extract.v Harness/Glue.vio
 Harness/Extract.vos Harness/Extract.vok Harness/Extract.required_vos: Harness/Extract.v Harness/Glue.vos
@@ -40,12 +46,12 @@ Properties/C10.vos Properties/C10.vok Properties/C10.required_vos: Properties/C1
 AsFound/C10.vo AsFound/C10.glob AsFound/C10.v.beautified AsFound/C10.required_vo: AsFound/C10.v Lib/Bytes.vo Lib/Val.vo Model/Index.vo Proofs/IndexProof.vo Proofs/RenderProof.vo Properties/C10.vo
 AsFound/C10.vio: AsFound/C10.v Lib/Bytes.vio Lib/Val.vio Model/Index.vio Proofs/IndexProof.vio Proofs/RenderProof.vio Properties/C10.vio
 AsFound/C10.vos AsFound/C10.vok AsFound/C10.required_vos: AsFound/C10.v Lib/Bytes.vos Lib/Val.vos Model/Index.vos Proofs/IndexProof.vos Proofs/RenderProof.vos Properties/C10.vos
-Properties/C03.vo Properties/C03.glob Properties/C03.v.beautified Properties/C03.required_vo: Properties/C03.v Model/Dag.vo Proofs/DagApi.vo
-Properties/C03.vio: Properties/C03.v Model/Dag.vio Proofs/DagApi.vio
-Properties/C03.vos Properties/C03.vok Properties/C03.required_vos: Properties/C03.v Model/Dag.vos Proofs/DagApi.vos
-Properties/C09.vo Properties/C09.glob Properties/C09.v.beautified Properties/C09.required_vo: Properties/C09.v Model/Dag.vo Proofs/DagApi.vo
-Properties/C09.vio: Properties/C09.v Model/Dag.vio Proofs/DagApi.vio
-Properties/C09.vos Properties/C09.vok Properties/C09.required_vos: Properties/C09.v Model/Dag.vos Proofs/DagApi.vos
+Properties/C03.vo Properties/C03.glob Properties/C03.v.beautified Properties/C03.required_vo: Properties/C03.v Lib/Bytes.vo Model/Index.vo Model/Dag.vo Model/IndexGroups.vo Proofs/IndexProof.vo Proofs/DagApi.vo Proofs/IndexGroupsProof.vo
+Properties/C03.vio: Properties/C03.v Lib/Bytes.vio Model/Index.vio Model/Dag.vio Model/IndexGroups.vio Proofs/IndexProof.vio Proofs/DagApi.vio Proofs/IndexGroupsProof.vio
+Properties/C03.vos Properties/C03.vok Properties/C03.required_vos: Properties/C03.v Lib/Bytes.vos Model/Index.vos Model/Dag.vos Model/IndexGroups.vos Proofs/IndexProof.vos Proofs/DagApi.vos Proofs/IndexGroupsProof.vos
+Properties/C09.vo Properties/C09.glob Properties/C09.v.beautified Properties/C09.required_vo: Properties/C09.v Lib/Bytes.vo Model/Index.vo Model/Dag.vo Model/IndexGroups.vo Proofs/IndexProof.vo Proofs/DagApi.vo Proofs/IndexGroupsProof.vo
+Properties/C09.vio: Properties/C09.v Lib/Bytes.vio Model/Index.vio Model/Dag.vio Model/IndexGroups.vio Proofs/IndexProof.vio Proofs/DagApi.vio Proofs/IndexGroupsProof.vio
+Properties/C09.vos Properties/C09.vok Properties/C09.required_vos: Properties/C09.v Lib/Bytes.vos Model/Index.vos Model/Dag.vos Model/IndexGroups.vos Proofs/IndexProof.vos Proofs/DagApi.vos Proofs/IndexGroupsProof.vos
 AsFound/C03.vo AsFound/C03.glob AsFound/C03.v.beautified AsFound/C03.required_vo: AsFound/C03.v Model/Dag.vo Properties/C03.vo
 AsFound/C03.vio: AsFound/C03.v Model/Dag.vio Properties/C03.vio
 AsFound/C03.vos AsFound/C03.vok AsFound/C03.required_vos: AsFound/C03.v Model/Dag.vos Properties/C03.vos
